@@ -40,6 +40,16 @@ CHECKS = {
    "Generated paths of 1..27 hops with generated amounts, expiries, channel ids, recipient fields (metadata, custom TLVs, keysend) and blinded tails, with the largest fitting hop count found constructively: each hop's peel_payment_onion must return exactly that hop's instructions and a 1366-byte next packet equal to the reference's, one hop or one byte beyond the fit must be refused, any single corrupted byte of packet / key / HMAC / payment hash must be rejected by the next hop; failures built at hop k (every failure code, data 0..60000 bytes) and wrapped by hops k-1..0 must be attributed to hop k with the original code and data and report the generated hold times, damaged packets are never decoded as a different valid failure. Path-length x failing-position grids are enumerated completely. Search, not proof.",
    "Trampoline onions and the netsim end-to-end cross-check are not covered; the fulfil-side consumer (decode_fulfill_attribution_data) is crate-private, so fulfil hold times are read by the reference decoder; CLTV deltas are generated inside LDK's relay policy.",
    "DESIGN.md §6 C14"),
+ "C18": ("vprop", "exploration",
+   "property-based testing of BOLT-11 / BOLT-12 builders and parsers against independent re-implementations (bech32 polymod, BOLT-11 signing hash, TLV framing, BOLT-12 merkle root), with generated character / symbol / bit mutations and recomputed checksums",
+   "Generated invoices, offers, invoice requests, BOLT-12 invoices, refunds and static invoices over the builders' input space round-trip through strings and TLV bytes with equality, accessor agreement and an independent re-derivation of hashes and signatures; every sampled (and, for a fraction of cases, every single) character substitution of a BOLT-11 string and bit flip of a signed BOLT-12 stream must be rejected; recomputed-checksum mutations must fail, name an unrelated recovered key, or leave the signed content unchanged; stateless metadata verifies only for the originator (other key material, other nonce, altered offer, re-signed altered invoice are refused); arbitrary input never panics. Search, not proof.",
+   "secp256k1/sha256 primitives are trusted; whole-second durations; offers that requests are built against do not expire (builders consult the wall clock); one listed known finding (offer_metadata injection into derived-key offers with paths).",
+   "DESIGN.md §6 C18"),
+ "C19": ("vprop", "fault_enumeration",
+   "model-based property testing of the shipped key-value stores against an in-memory map (sequential, async-completion-order and multi-threaded phases) and crash-point / fault enumeration over the store-operation log of MonitorUpdatingPersister driven by a real channel",
+   "Part A: generated write/read/remove/list/reopen sequences over FilesystemStore and FilesystemStoreV2 (sync and async API, empty namespaces, maximum-length names, 0..256 kB values) must equal a reference BTreeMap; out-of-order completion of async writes must respect issue order; 2..8 concurrent threads are checked with a sound linearizability-style oracle. Part B: for every recorded history of a real channel persisted through MonitorUpdatingPersister (maximum_pending_updates in {0,1,2,3,5,10,100}) EVERY prefix of the store-operation log, crossed with lazy-removal outcomes, is recovered by a fresh persister: recovery succeeds, includes every update reported as persisted, equals the handed-over monitor plus recorded updates, clean-up never removes a needed update; every store operation is additionally failed once. Fault enumeration over the explored histories; thread interleavings are sampled by the OS, not enumerated.",
+   "Crash consistency is decided at KVStore-operation granularity (fsync/power-loss ordering is not observable in-process); lazy-removal subsets are sampled per prefix (none, all, two subsets).",
+   "DESIGN.md §6 C19"),
 }
 
 NOT_YET = {
